@@ -7,7 +7,8 @@ wt=/tmp/mut-$$-$RANDOM
 git -C /repo worktree add -q --detach $wt HEAD || exit 3
 trap "git -C /repo worktree remove --force $wt" EXIT
 (cd $wt && (git apply "$patch" 2>/dev/null || git apply -3 "$patch")) || { echo "patch does not apply"; exit 3; }
-cd /verif
+cd ${VERIF_DIR:-/verif}
+[ -x bin/verif ] || (export GOFLAGS=-mod=mod GOPROXY=off GOSUMDB=off GOTOOLCHAIN=local; go build -o bin/verif ./cmd/verif) || exit 3
 for c in "$@"; do
   out=$(VERIF_REPO=$wt timeout 1800 bin/verif check "$c" --tier ${TIER:-quick} 2>&1); e=$?
   echo "$out" | grep -E "^(violation|INFRA|verif:)" | cut -c1-400 | head -${LINES_MAX:-8}
